@@ -767,7 +767,35 @@ def rule_logical_file(ctx, prop='C04'):
               'read() loops while size != 0 and changes size only by counting down what was read',
               f'read() re-interprets the requested size ({foreign or norm(rloops[0].test) if rloops else "no loop"}): a request for 0 bytes '
               '(the committed part of the files before the first commit) no longer reads nothing', loc=ctx.loc(rd, rd.node))
-    return 3
+    # ... and the loop is left early only when nothing more can be read (an empty part, a missing file): a short part is what
+    # every physical-file boundary produces, and the rest of the request lies in the next file
+    from .. import paths as _P
+    early = []
+    if len(rloops) == 1:
+        pv = [norm(s_.targets[0]) for s_ in walk_own(rloops[0]) if isinstance(s_, ast.Assign) and isinstance(s_.value, ast.Call)
+              and isinstance(s_.value.func, ast.Attribute) and s_.value.func.attr == 'read' and isinstance(s_.targets[0], ast.Name)]
+        for p_ in _P.paths(rloops[0].body):
+            if p_.exit not in ('break', 'return'):
+                continue
+            if any(isinstance(nd, ast.ExceptHandler) for _t, _pol, nd in p_.conds):
+                continue
+            ds = p_.decisions()
+            if len(ds) == 1:
+                t_, pol_ = ds[0]
+                while isinstance(t_, ast.UnaryOp) and isinstance(t_.op, ast.Not):
+                    t_, pol_ = t_.operand, not pol_
+                if isinstance(t_, ast.Call) and isinstance(t_.func, ast.Name) and t_.func.id == 'len' and len(t_.args) == 1:
+                    t_ = t_.args[0]
+                is_part = (isinstance(t_, ast.Name) and t_.id in pv) or \
+                    (isinstance(t_, ast.Call) and isinstance(t_.func, ast.Attribute) and t_.func.attr == 'read')
+                if is_part and pol_ is False:
+                    continue
+            early.append(' & '.join(p_.cond_texts())[:100])
+    ctx.check(len(rloops) == 1 and not early, rule, ctx.key(rd, None, 'reads across file boundaries'),
+              'read() leaves its loop early only on an empty part or a missing file',
+              f'read() stops although more may follow (left when {early[:2]}): a request that straddles a physical-file boundary '
+              'comes back short (tx hashes / headers / counts of a block cut at the boundary)', loc=ctx.loc(rd, rd.node))
+    return 4
 
 
 def rule_unflushed_kept(ctx, prop='C04'):
